@@ -173,6 +173,9 @@ async fn vt_body(seed: u64, trace: Arc<Trace>) -> (Vec<String>, bool, u64) {
             }
         }
     }
+    // a child that is spawned with spawn_instant and linked by hand just before the exit is requested: it may still be Unstarted
+    // (its start task not yet polled) when the subject exits; it counts among the children that must have been signalled
+    let late: Arc<std::sync::Mutex<Vec<ActorCell>>> = Default::default();
     let mut tasks = vec![];
     let mut join_handle = Some(handle);
     let mut nontrivial = false;
@@ -182,6 +185,7 @@ async fn vt_body(seed: u64, trace: Arc<Trace>) -> (Vec<String>, bool, u64) {
             nontrivial = true;
         }
         let (tr, a, nm, gs, chs, sr) = (trace.clone(), actor.clone(), name.clone(), groups.clone(), children.clone(), sup_ref.clone());
+        let late_w = late.clone();
         let jh = if api == 5 { join_handle.take() } else { None };
         desc.push(format!("w{w}: api={api} start={start_at}ms timeout={timeout_ms:?}"));
         tasks.push(vt::spawn_h(&format!("c06-w{w}"), async move {
@@ -227,6 +231,7 @@ async fn vt_body(seed: u64, trace: Arc<Trace>) -> (Vec<String>, bool, u64) {
                 },
             };
             if res == 1 {
+                let chs: Vec<ActorCell> = chs.iter().cloned().chain(late_w.lock().unwrap().iter().cloned()).collect();
                 snapshot_at_return(&tr, &who, &a.get_cell(), &nm, &gs, &chs);
             }
             let t1 = tr.now_ms();
@@ -257,6 +262,18 @@ async fn vt_body(seed: u64, trace: Arc<Trace>) -> (Vec<String>, bool, u64) {
     }
     // requester
     tokio::time::sleep(Duration::from_millis(t_req)).await;
+    let mut instant = None;
+    if cause <= 2 && Prng::new(seed ^ 0x1257).chance(1, 3) {
+        let ispec = Arc::new(ProbeSpec::new(40, Some(format!("c06-instant-{seed:x}")), trace.clone()));
+        if let Ok((c, outer)) = ractor::ActorRuntime::<Probe>::spawn_instant(ispec.name.clone(), Probe { spec: ispec.clone() }, ()) {
+            c.get_cell().link(actor.get_cell());
+            // the link is refused when a waiter has already asked the subject to exit (an exiting actor gains no children)
+            if c.get_cell().try_get_supervisor().map(|s| s.get_id()) == Some(actor.get_id()) {
+                late.lock().unwrap().push(c.get_cell());
+            }
+            instant = Some((c, outer));
+        }
+    }
     trace.log(Ev::Call { client: 100, op: "exit", arg: cause });
     match cause {
         0 => actor.stop(Some("requested".into())),
@@ -302,6 +319,14 @@ async fn vt_body(seed: u64, trace: Arc<Trace>) -> (Vec<String>, bool, u64) {
         };
         if !r {
             trace.online_violation("late-waiter", format!("late waiter api {api} did not return Ok after the actor had stopped"));
+        }
+    }
+    if let Some((c, outer)) = instant {
+        // (whatever became of it, do not leave it behind for the next scenario)
+        vt::settle().await;
+        c.kill();
+        if let Ok(Ok(h)) = outer.await {
+            let _ = h.await;
         }
     }
     sampler_stop.store(1, Ordering::SeqCst);
